@@ -219,7 +219,7 @@ impl Engine for C12 {
                 "float literals in generated programs are exactly representable so that JSON round-trips them",
             ],
             shrink: vec!["/modules"],
-            quick: (6000, 150),
+            quick: (30000, 150),
             thorough: (200000, 1100),
         }
     }
